@@ -4,6 +4,7 @@ import (
 	"encoding/json"
 	"fmt"
 	"os"
+	"strconv"
 	"strings"
 
 	. "verif/internal/proto"
@@ -27,12 +28,18 @@ func checkDBG(c *Ctx) {
 		req := execReq(p)
 		req.Libs = true
 		req.Inputs = map[string]Val{"长": Num(3), "宽": Num(4)}
+		if n, err := strconv.Atoi(os.Getenv("VERIF_DBG_REPS")); err == nil {
+			req.Reps = n
+		}
 		resp := c.Pool.Do(req)
 		fmt.Printf("---- program %d ----\n%s\n-> kind=%s", i, p, resp.Kind)
 		if resp.Val != nil {
 			fmt.Printf(" val=%s str=%q", resp.Val.String(), resp.Val.Str)
 		}
 		fmt.Printf(" ticks=%d/%d callstack=%d scopes=%v\n", resp.ParseTicks, resp.EvalTicks, resp.CallStack, resp.Scopes)
+		if resp.RepDistinct > 0 {
+			fmt.Printf("reps: distinct outcomes=%d %q (canary orders %d)\n", resp.RepDistinct, resp.RepOutcomes, resp.CanaryOrders)
+		}
 		if resp.Display != "" {
 			fmt.Printf("display:\n%s", resp.Display)
 		}
